@@ -58,6 +58,19 @@ def run(ctx):
         ctx.violation("harness does not build against /repo's working tree",
                       {"theorem_or_correspondence": "correspondence C01 (h01 build)"}, found_input=False)
 
+    # --- exploration leg without reference semantics: the self-checking instantiation zoo (lib/zoo.py,
+    # harness/h14run): every chk_* function is `true` for every argument by construction
+    from props import zoo_selfcheck
+    z = zoo_selfcheck.run_leg(ctx)
+    if not z["ok"]:
+        ctx.violation("zoo self-check leg did not run: " + z.get("error", "?"),
+                      {"error": z.get("error"), "not_compiled": z.get("not_compiled", [])[:5]}, found_input=False)
+    for f in z["failures"][:6]:
+        ctx.violation("C01: compiled program computes a wrong value: %s(%s) [%s] %s"
+                      % (f.get("function"), f.get("args"), f.get("solver"), f.get("what")),
+                      dict(f, replay_cmd="python3 lib/zoo.py /tmp/zoo_replay  # then run the function with cairo-run"),
+                      found_input=True)
+
     # --- decide ---
     # impl-level oracle: the independent interpreter and the pipeline differ on a concrete
     # (program, input), or the compiler panics on a well-typed generated program.
@@ -126,6 +139,9 @@ def run(ctx):
         "traces_validated_against_impl": summary.get("cases", 0),
         "correspondence_disagreements": len(corr_bad),
         "oracle_failures": len(oracle_bad),
+        "zoo_selfchecks": z.get("selfchecks", 0),
+        "zoo_failures": len(z.get("failures", [])),
+        "zoo_files_not_compiled": len(z.get("not_compiled", [])),
         "samples": samples or ["(no samples: harness did not run)"],
     })
     return ctx.finish(
@@ -135,7 +151,10 @@ def run(ctx):
         "the reference semantics and the compiler.  That relation is explored: every generated (program, input) is "
         "run through the real pipeline (Cairo -> Sierra -> CASM -> cairo-vm) and compared inside Coq with "
         "`eval` (values flattened by the Sierra layout, panic data felt by felt); an independent interpreter in "
-        "the harness arbitrates and shrinks failing programs.",
+        "the harness arbitrates and shrinks failing programs.  A further exploration leg WITHOUT reference semantics: the "
+        "self-checking instantiation zoo (lib/zoo.py: chk_* functions that are `true` for every argument by construction, "
+        "compiled with and without gas, run by harness/h14run); any other result is a wrong value computed by the "
+        "compiled program.",
         TRUSTED,
         "make -C coq/C01 && coqc Props/C01.v (Print Assumptions) ; harness/h01 <out> <tier> c01 -> coqc out/C01/cases/c01_*.v",
     )
